@@ -134,7 +134,7 @@ TARGETS = [
                   self_fields={"store_id": "storeId", "count": "count", "offset": "offset", "free_data": "(leNat freeData)", "index_key": "key", "name": "name"},
                   exprs={"Ok(())": "out"})),
     # ---- the creator's order on array values (inline prefix bytes, value id, length)
-    dict(name="writerArrayCmp", group="Dir", file="src/creator/directory_pack/value.rs", fn="cmp", after=r"impl Array \{",
+    dict(name="writerArrayCmp", group="Order", file="src/creator/directory_pack/value.rs", fn="cmp", after=r"impl Array \{",
          cfg=dict(params=[("dataCmp", "Ordering"), ("id1", N), ("id2", N), ("s1", N), ("s2", N)], ret="Ordering",
                   exprs={"self.data.cmp(&other.data)": "dataCmp",
                          "self.value_id.get().cmp(&other.value_id.get())": "(compare id1 id2)",
@@ -219,7 +219,7 @@ def apply_enums(t):
 
 
 GROUP_IMPORTS = {"Search": ["JubakoModel.Generated.FuncsBytes"], "Content": ["JubakoModel.Generated.FuncsBytes"], "Dir": ["JubakoModel.Generated.FuncsBytes", "JubakoModel.Model.Bytes"]}
-GROUP_ORDER = ["Bytes", "Content", "Dir", "Search", "View", "Check"]
+GROUP_ORDER = ["Bytes", "Content", "Dir", "Order", "Search", "View", "Check"]
 
 
 def main():
